@@ -109,31 +109,62 @@ def scn_args(name, with_require=True):
     return dict(name="args(%s)%s" % (name, "" if with_require else "-noreq"), prefix=prefix, sigma=sig)
 
 
+def required_args_phrase(name):
+    c = T.COMMANDS[name]
+    out = []
+    pos = c["pos"][-1:] if c["optfirst"] else c["pos"]
+    for p in pos:
+        if isinstance(p, tuple):
+            out.append(p[1][0])
+        elif p == "n":
+            out.append("NUM")
+        else:
+            out.append("STR")
+    if c["tests"] == 1:
+        out.append("true")
+    elif c["tests"] == "list":
+        out.append("( true )")
+    return out
+
+
 def scn_args_noreq(name):
-    """same without the require prefix and with per-extension require phrases in sigma; the command
-    name itself is in sigma so that require-then-use and use-then-require are both reached"""
+    """no require prefix; per-extension require phrases, the command in every position kind, its
+    extension-bound tags (with parameter), and closers that supply the required arguments, so that a
+    complete use is reached within 4-5 symbols"""
     c = T.COMMANDS[name]
     exts = set()
     if c["ext"]:
         exts.add(c["ext"])
-    for s in c["slots"]:
-        for t, (ext, _p, _v) in s.items():
-            if ext:
-                exts.add(ext)
-    sig = []
-    for e in sorted(exts):
-        sig.append('require "%s" ;' % e)
     own = []
     for s in c["slots"]:
-        for t, (ext, ptype, values) in s.items():
+        for t, (ext, ptype, values) in sorted(s.items()):
             if ext:
-                own.append(t)
-                if values:
-                    own.append(values[0])
+                exts.add(ext)
+                sym = t
+                if ptype:
+                    sym += " " + (values[0] if values else ("NUM" if ptype == "n" else "STR"))
+                own.append(sym)
+    plain = None
+    for s in c["slots"]:
+        for t, (ext, ptype, values) in sorted(s.items()):
+            if not ext and not ptype and plain is None:
+                plain = t
+    if plain:
+        own.append(plain)
+    if own:
+        t0 = own[0].split()
+        own.append(" ".join([t0[0][0:2] + t0[0][2:].upper()] + t0[1:]))
+    sig = ['require "%s" ;' % e for e in sorted(exts)]
+    unrelated = "variables" if "variables" not in exts else "date"
+    sig.append('require "%s" ;' % unrelated)
+    args = " ".join(required_args_phrase(name))
     if c["role"] == "test":
-        sig += ["if " + name, "if not " + name, "if anyof ( " + name] + own + ["STR", "NUM", ")", "{", "}", ";", "keep"]
+        sig += ["if " + name, "if not " + name, "if anyof ( true , " + name, "if true { if " + name] + own
+        sig += [(args + " {").strip(), (args + " ) {").strip(), "}", "keep ;"]
+    elif c["block"]:
+        sig += [name, "if true {"] + own + [(args + " {").strip(), "}", "keep ;"]
     else:
-        sig += [name, "if true {"] + own + ["STR", "NUM", "LIST1", ";", "}"]
+        sig += [name, "if true {", "if true { } else {"] + own + [(args + " ;").strip(), "}"]
     return dict(name="noreq(%s)" % name, prefix=(), sigma=sig)
 
 
